@@ -708,7 +708,13 @@ unsigned int CppCheck::checkClang(const FileWithDetails &file)
     const std::string args2 = "-fsyntax-only -Xclang -ast-dump -fno-color-diagnostics " +
                               getClangFlags(mSettings, file.lang()) +
                               file.spath();
-    const std::string redirect2 = clangStderr.empty() ? "2>&1" : ("2> " + clangStderr);
+    // never merge the diagnostics into the AST dump: the interleaving is arbitrary and corrupts the dump
+    // (compile errors are still detected through the exit code)
+#ifdef _WIN32
+    const std::string redirect2 = clangStderr.empty() ? "2> NUL" : ("2> " + clangStderr);
+#else
+    const std::string redirect2 = clangStderr.empty() ? "2> /dev/null" : ("2> " + clangStderr);
+#endif
     if (mSettings.verbose && !mSettings.quiet) {
         mErrorLogger.reportOut(exe + " " + args2, Color::Reset);
     }
